@@ -699,7 +699,12 @@ def scorerhi(ctx, z, **kwargs):
     return _scorer(ctx, z, 1, kwargs)
 
 @defun_wrapped
-def coulombc(ctx, l, eta, _cache={}):
+def coulombc(ctx, l, eta):
+    # The cached values are numbers of this context: keep one cache per context
+    try:
+        _cache = ctx._coulombc_cache
+    except AttributeError:
+        _cache = ctx._coulombc_cache = {}
     if (l, eta) in _cache and _cache[l,eta][0] >= ctx.prec:
         return +_cache[l,eta][1]
     G3 = ctx.loggamma(2*l+2)
@@ -735,7 +740,11 @@ def coulombf(ctx, l, eta, z, w=1, chop=True, **kwargs):
     return v
 
 @defun_wrapped
-def _coulomb_chi(ctx, l, eta, _cache={}):
+def _coulomb_chi(ctx, l, eta):
+    try:
+        _cache = ctx._coulomb_chi_cache
+    except AttributeError:
+        _cache = ctx._coulomb_chi_cache = {}
     if (l, eta) in _cache and _cache[l,eta][0] >= ctx.prec:
         return _cache[l,eta][1]
     def terms():
